@@ -57,6 +57,7 @@ func main() {
 	only := flag.String("rule", "", "run only this rule (replay)")
 	dump := flag.Bool("dump", false, "dump function keys")
 	list := flag.Bool("list", false, "list properties and their rules")
+	dumpBase := flag.Bool("dump-baseline", false, "print the function baseline (key and body fingerprint per configuration) of the tree")
 	flag.Parse()
 	if *list {
 		var ids []string
@@ -70,6 +71,19 @@ func main() {
 				ns = append(ns, rd.Name)
 			}
 			fmt.Printf("%s: %s\n", id, strings.Join(ns, ", "))
+		}
+		return
+	}
+	if *dumpBase {
+		for _, c := range thoroughConfigs {
+			p, err := Load(*repo, c, true)
+			if err != nil {
+				fmt.Fprintln(os.Stderr, err)
+				os.Exit(2)
+			}
+			for _, ln := range baselineLines(p) {
+				fmt.Println(ln)
+			}
 		}
 		return
 	}
